@@ -1161,22 +1161,9 @@ impl<T: PackedInt> IntVec<T> {
 
     /// Fast sorted sequence detection using sampling
     fn fast_sorted_check(values: &[u64]) -> bool {
-        if values.len() < 2 {
-            return true;
-        }
-        
-        // Sample every 16th element for fast sorted detection
-        let sample_step = (values.len() / 16).max(1);
-        let mut prev = values[0];
-        
-        for i in (sample_step..values.len()).step_by(sample_step) {
-            if values[i] < prev {
-                return false;
-            }
-            prev = values[i];
-        }
-        
-        true
+        // Must be exact: the delta encoder subtracts every element from its successor, a sampled
+        // check lets unsorted input through (underflow / wrong values on decode)
+        values.windows(2).all(|w| w[0] <= w[1])
     }
 
     /// Bulk-optimized compression with pre-allocation and chunked writing
